@@ -165,7 +165,7 @@ func evalC08(c *Ctx, k c08Case) {
 }
 
 func runC08(c *Ctx) {
-	c.Res.Rule = "complete cross product: entity {operator, account} x signing-key set {empty, listed, listed+identity} (account: plain and scoped, scopes registered by pointer and by value) x strict flag x claim {nil, 7 kinds} x issuer {identity, listed plain key, listed scoped key, unlisted key of same role, key of another entity} x subject {self, other} x issuer-account {empty, this, other} x before/after encode-decode of the entity; oracle = the property's sentence; every case also goes through the Lean model; plus long signing-key lists (24 operator keys sorted / two neighbours swapped / reversed / random, 20 account keys), every listed key and an unlisted one asked about. non-trivial = distinct cases."
+	c.Res.Rule = "complete cross product: entity {operator, account} x signing-key set {empty, listed, listed+identity with the identity key last / first / in the middle} (account: plain and scoped, scopes registered by pointer and by value) x strict flag x claim {nil, 7 kinds} x issuer {identity, listed plain key, listed scoped key, unlisted key of same role, key of another entity} x subject {self, other} x issuer-account {empty, this, other} x before/after encode-decode of the entity; oracle = the property's sentence; every case also goes through the Lean model; plus long signing-key lists (24 operator keys sorted / two neighbours swapped / reversed / random, 20 account keys), every listed key and an unlisted one asked about. non-trivial = distinct cases."
 	okp, akp := kpN('O', 0), kpN('A', 0)
 	o, a := pubOf(okp), pubOf(akp)
 	osk, osk2 := pubOf(kpN('O', 1)), pubOf(kpN('O', 2))
@@ -175,7 +175,7 @@ func runC08(c *Ctx) {
 	for _, rt := range []bool{false, true} {
 		// operator
 		for _, strict := range []bool{false, true} {
-			for _, keys := range [][]string{nil, {osk}, {osk, o}} {
+			for _, keys := range [][]string{nil, {osk}, {osk, o}, {o, osk}, {osk, o, osk2}, {o, osk2, osk}} {
 				evalC08(c, c08Case{Entity: "operator", Strict: strict, Keys: keys, RoundTrip: rt, Nil: true})
 				for _, kind := range kinds {
 					for _, iss := range []string{o, osk, osk2, a, ask} {
